@@ -38,8 +38,56 @@ def check_C11(tier, seed):
                      "on the compiled crate.")
 
 
+KANI_TRUST = ["Kani 0.68 codegen + CBMC 6.11 + CaDiCaL", "rustc (the harness is compiled with the crate's real code; "
+              "Kani models the dev profile: overflow checks and debug assertions on)"]
+
+
+def _kani_prop(pid, tier, seed, crate, prefix, configs, bounds, assumptions, functions, explanation):
+    from . import kani as K
+    rp = Report(pid, tier, seed)
+    rp.trusted.update(KANI_TRUST)
+    hs = [h for h in K.list_harnesses(crate) if h.split("::")[-1].startswith(prefix)]
+    for cfg in configs:
+        G.run_kani(rp, crate, cfg, hs, pid.lower())
+    rp.bounds += bounds
+    rp.assumptions += assumptions
+    rp.functions.update(functions)
+    return rp.finish("other", explanation)
+
+
+def check_C17(tier, seed):
+    cfgs = ["default"] if tier == "quick" else ["default", "compact", "alloc"]
+    return _kani_prop("C17", tier, seed, "core", "c17_", cfgs,
+                      ["all 2^64 f64 bit patterns and all 2^32 f32 bit patterns are one symbolic variable per harness (no bound)",
+                       "packing: all (exp, frac) with exp in [0, all-ones], frac < 2^p1, plus the un-masked carry (2^p1, 1)"],
+                      ["specification side uses literal IEEE-754 parameters written in the harness, not the crate's constants"],
+                      ["Float::{is_denormal, exponent, mantissa, from_bits, to_bits} for f32 and f64",
+                       "extended_float::extended_to_float", "slow::b", "slow::bh"],
+                      "Kani/CBMC decides each helper against the IEEE-754 encoding for every bit pattern (the whole domain "
+                      "is a single symbolic input, so the SAT verdict is exhaustive, not sampled).")
+
+
+def check_C18(tier, seed):
+    cfgs = ["default"] if tier == "quick" else ["default", "compact"]
+    return _kani_prop("C18", tier, seed, "core", "c18_", cfgs,
+                      ["significand in [2^63, 2^64), biased exponent in [-63, 2100] (f64) / [-63, 320] (f32): the whole "
+                       "domain the property names, symbolic; mask helpers for all widths 0..=64",
+                       "callbacks exactly as the crate's call sites use them (nearest: is_above || (is_odd && is_halfway); "
+                       "truncating: round_down)"],
+                      ["oracle: textbook round-half-even / truncation of mant*2^(exp-bias) written in the harness",
+                       "for exponents that already denote >= 2^emax the truncating variant returns the infinity encoding "
+                       "(what its callers rely on); the harness asserts exactly that"],
+                      ["rounding::round", "rounding::round_nearest_tie_even", "rounding::round_down",
+                       "mask::lower_n_mask", "mask::lower_n_halfway", "mask::nth_bit", "extended_float::extended_to_float"],
+                      "Kani/CBMC compares the real primitive (packed through extended_to_float) with the oracle for every "
+                      "(significand, exponent) of the stated domain; vacuity witnesses (kani::cover!) for subnormal, "
+                      "carry, smallest-normal and overflow cases must be satisfiable.")
+
+
 PROPS = {
     "C11": check_C11,
+    "C17": check_C17,
+    "C18": check_C18,
 }
 
 
